@@ -1,6 +1,6 @@
 (* C05 - Display transforms only select and reorder; every output stays aligned.
-   Statements only; proofs in Proofs/AssembleProofs.v (assembly), Proofs/AssembleOrder.v
-   (the order lists nothing twice); executable models Model/Assemble.v (np.block + np.ix_,
+   Statements only; proofs in Proofs/AssembleProofs.v (assembly), Proofs/AssembleOrder.v,
+   Proofs/OrderSbv.v, Proofs/SbvDedup.v (the order lists nothing twice); executable models Model/Assemble.v (np.block + np.ix_,
    hstack + fancy index, labels / fills / position lists / pairwise renumbering) and
    Model/Collator.v (the collators that produce the signed display order).
    Tied to the code by harness/props/c05.py: (a) metamorphic oracle on the implementation
@@ -12,7 +12,7 @@
    n_subtotals + z of the dimension's subtotal sequence. *)
 From Coq Require Import List ZArith Bool Lia Arith QArith Permutation Sorting.
 From CC Require Import Base.XQ Base.ListX Base.SortX Spec.OrderSpec Model.Collator Model.Assemble
-  Proofs.OrderVisible Proofs.AssembleProofs Proofs.AssembleOrder.
+  Proofs.OrderVisible Proofs.SbvDedup Proofs.OrderSbv Proofs.AssembleProofs Proofs.AssembleOrder.
 Import ListNotations.
 Local Close Scope Q_scope.
 Local Close Scope Z_scope.
@@ -123,22 +123,25 @@ Theorem C05_derived_idxs_strand derived nsub order k :
 Proof. exact (derived_idxs_strand_spec derived nsub order k). Qed.
 Print Assumptions C05_derived_idxs_strand.
 
-(* a slice pads the flag vector with n_elements (not n_subtotals) False's: correct while the
-   dimension has no more subtotals than elements (hypothesis: -n_elements <= order entry) *)
-Theorem C05_derived_idxs_slice derived order k :
-  Forall (in_range (length derived) (length derived)) order ->
-  (In k (derived_idxs_slice derived order) <->
+(* a slice pads the flag vector with one False per subtotal, exactly like a strand (since the repair
+   of finding C05-derived-idxs-indexerror): position k is reported iff the k-th displayed vector is
+   a derived ELEMENT, for any number of subtotals *)
+Theorem C05_derived_idxs_slice derived nsub order k :
+  Forall (in_range nsub (length derived)) order ->
+  (In k (derived_idxs_slice derived nsub order) <->
    k < length order /\ (0 <= nth k order 0%Z)%Z /\ nth (Z.to_nat (nth k order 0%Z)) derived false = true).
-Proof. exact (derived_idxs_slice_spec derived order k). Qed.
+Proof. exact (derived_idxs_slice_spec derived nsub order k). Qed.
 Print Assumptions C05_derived_idxs_slice.
 
-Theorem C05_derived_idxs_slice_refuted :
-  exists derived order,
-    Forall (in_range 2 (length derived)) order /\
-    derived_idxs_slice derived order = [0] /\ (nth 0 order 0%Z < 0)%Z /\
-    derived_idxs_strand derived 2 order = [].
-Proof. exact derived_idxs_slice_refuted. Qed.
-Print Assumptions C05_derived_idxs_slice_refuted.
+(* the former witnesses of that finding (padding with n_elements): one derived element and two
+   subtotals - the subtotal -2 was reported as derived; one element and three subtotals - index -3
+   was out of bounds (IndexError).  Now: no subtotal is reported, the element is *)
+Theorem C05_derived_idxs_slice_former_witness :
+  derived_idxs_slice [true] 2 [(-2)%Z] = [] /\
+  derived_idxs_slice [true] 3 [(-3)%Z; 0%Z; (-1)%Z] = [1] /\
+  Forall (in_range 3 (length [true])) [(-3)%Z; 0%Z; (-1)%Z].
+Proof. exact derived_idxs_slice_former_witness. Qed.
+Print Assumptions C05_derived_idxs_slice_former_witness.
 
 (* pairwise index sets are renumbered through the column order: display position k is listed
    iff the column displayed at k is one of the significant columns; ascending; and under a
@@ -158,21 +161,21 @@ Proof. exact (renumber_unique co sig k). Qed.
 Print Assumptions C05_pairwise_renumber_unique.
 
 (* ---------------------------------------------------------------------------------------
-   order_nodup: the signed display order of the model's order helpers (payload, explicit,
+   order_nodup: the signed display order of EVERY order helper of the model (payload, explicit,
    sort-by-value incl. the fallback; hide, prune, subtotal pruning) lists no element or
-   subtotal twice and only indexes -n_subtotals .. n_elements-1.
-   For sort-by-value the proof needs [fixed_once]: no id of the dimension is named twice in
-   fixed.top ++ fixed.bottom.
+   subtotal twice and only indexes -n_subtotals .. n_elements-1 - whatever the fixed lists of a
+   value sort name (repeats inside a list, the same id at both ends, stale ids).
+   [values_fit]: the sort-value vectors have one entry per element / per subtotal.
    --------------------------------------------------------------------------------------- *)
 Theorem C05_order_nodup d o empties psub order :
-  NoDup (d_ids d) -> values_fit d o -> fixed_ok d o ->
+  NoDup (d_ids d) -> values_fit d o ->
   display_order d o empties psub = Ok order ->
   NoDup order /\
   Forall (in_range (List.length (subtotals d)) (List.length (d_elems d))) order.
 Proof. exact (display_order_nodup d o empties psub order). Qed.
 Print Assumptions C05_order_nodup.
 
-(* payload / explicit collators: unconditionally *)
+(* payload / explicit collators (no value vectors) *)
 Theorem C05_order_nodup_anchored d k empties psub order :
   NoDup (d_ids d) ->
   display_order d (ByAnchor k) empties psub = Ok order ->
@@ -181,16 +184,31 @@ Theorem C05_order_nodup_anchored d k empties psub order :
 Proof. exact (anchored_order_nodup d k empties psub order). Qed.
 Print Assumptions C05_order_nodup_anchored.
 
-(* without [fixed_once] the statement is false in the model (and in the code: known finding
-   C05-fixed-repeats): fixed = {top: [2, 2], bottom: [2]} lists the element with id 2 thrice *)
-Theorem C05_order_nodup_refuted :
+(* the sort-by-value collator itself: no hypothesis at all *)
+Theorem C05_sbv_nodup d s vals svals empties : NoDup (sbv_display d s vals svals empties).
+Proof. exact (sbv_nodup d s vals svals empties). Qed.
+Print Assumptions C05_sbv_nodup.
+
+(* the collator keeps the first mention of every index of the concatenated groups
+   (tuple(dict.fromkeys(...)) read as successive insertions) *)
+Theorem C05_first_mentions_step l z :
+  first_mentions (l ++ [z]) = if zmem z l then first_mentions l else first_mentions l ++ [z].
+Proof. exact (first_mentions_snoc l z). Qed.
+Print Assumptions C05_first_mentions_step.
+
+(* the former witness of finding C05-fixed-repeats (repaired in /repo 471ab8ef): fixed =
+   {top: [2, 2], bottom: [2]} listed the element with id 2 thrice - the concatenation before the
+   de-duplication is still [1; 1; 2; 0; 1] - and now lists it once, where it is first mentioned *)
+Theorem C05_order_nodup_former_witness :
   NoDup (d_ids refuting_dim) /\
   values_fit refuting_dim (ByValue refuting_sort (Some (refuting_vals, []))) /\
+  ~ fixed_once (d_ids refuting_dim) refuting_sort /\
+  sbv_plain refuting_dim refuting_sort refuting_vals [] [] = [1; 1; 2; 0; 1]%Z /\
   display_order refuting_dim (ByValue refuting_sort (Some (refuting_vals, []))) [] false
-  = Ok [1; 1; 2; 0; 1]%Z /\
-  ~ NoDup [1; 1; 2; 0; 1]%Z.
-Proof. exact sbv_nodup_refuted. Qed.
-Print Assumptions C05_order_nodup_refuted.
+  = Ok [1; 2; 0]%Z /\
+  NoDup [1; 2; 0]%Z.
+Proof. exact sbv_nodup_former_witness. Qed.
+Print Assumptions C05_order_nodup_former_witness.
 
 (* ---------------------------------------------------------------------------------------
    scalars_invariant, and "hidden and pruned elements still count"
@@ -257,17 +275,23 @@ Example ex_positions :
   /\ renumber [2; -1; 0]%Z [0; 2]%Z = [0; 2].
 Proof. vm_compute. repeat split. Qed.
 
-(* a sort-by-value order with fixed lists that satisfies [fixed_once] (a stale id may repeat) *)
-Example ex_fixed_once :
-  fixed_once (d_ids refuting_dim) (mkSort true [IInt 3; IInt 9; IInt 9] [IInt 1]) /\
+(* sort-by-value orders with fixed lists: an id of the dimension named at both ends and repeated, a
+   stale id (9) repeated; the hypotheses of C05_order_nodup hold and so does its conclusion *)
+Example ex_fixed_repeats :
+  values_fit refuting_dim
+    (ByValue (mkSort true [IInt 3; IInt 9; IInt 9; IInt 3] [IInt 1; IInt 3]) (Some (refuting_vals, []))) /\
   display_order refuting_dim
-    (ByValue (mkSort true [IInt 3; IInt 9; IInt 9] [IInt 1]) (Some (refuting_vals, []))) [] false
-  = Ok [2; 1; 0]%Z.
-Proof.
-  split.
-  - unfold fixed_once. vm_compute. repeat constructor; simpl; intuition discriminate.
-  - vm_compute. reflexivity.
-Qed.
+    (ByValue (mkSort true [IInt 3; IInt 9; IInt 9; IInt 3] [IInt 1; IInt 3]) (Some (refuting_vals, []))) [] false
+  = Ok [2; 1; 0]%Z /\
+  display_order refuting_dim
+    (ByValue (mkSort false [IInt 1] [IInt 2; IInt 1; IInt 2]) (Some (refuting_vals, []))) [0] false
+  = Ok [0; 2; 1]%Z.
+Proof. split; [split; reflexivity|split; vm_compute; reflexivity]. Qed.
+
+(* the slice's derived positions with more subtotals than twice the elements *)
+Example ex_derived_slice :
+  derived_idxs_slice [false; true] 5 [-5; 1; -1; 0; -4]%Z = [1].
+Proof. vm_compute. reflexivity. Qed.
 
 Example ex_hidden_count :
   shown_idxs [-1; 2; 0]%Z = [2; 0] /\ hidden_of 3 [-1; 2; 0]%Z = [1].
